@@ -1097,6 +1097,49 @@ def _subdomain_propagation(model, rep):
         raise AnalysisError(f"only {n} _adaptive implementations found")
 
 
+def _homogeneous_geometry(model, rep):
+    """The geometric decisions of adaptive refinement (which edge of a cell
+    is the longest) must not depend on the unit of length: every sum,
+    comparison and extremum in _adaptive_sort_mesh is dimensionally
+    homogeneous.  A perturbation of *absolute* size added to the coordinates
+    (tie-breaking noise) is rounded away on meshes with large coordinates:
+    ties survive, neighbours bisect different edges of their common face and
+    the result is silently non-conforming.  Engine: skv/dims.py."""
+    from fractions import Fraction as Fr
+    from ..dims import ANY, DimEval, show
+    R2 = "C13-R2"
+    n = 0
+    for modn, clsn in (("skfem.mesh.mesh_tri_1", "MeshTri1"),
+                       ("skfem.mesh.mesh_tet_1", "MeshTet1")):
+        fn = model.cls(modn, clsn).methods.get("_adaptive_sort_mesh")
+        if fn is None:
+            raise AnalysisError(f"{clsn}._adaptive_sort_mesh not found")
+        mod = model.modules[modn]
+        ev = DimEval(api={}, attrs={},
+                     dotted=lambda e, mod=mod: model.dotted(mod, e))
+        env = {}
+        for p_ in fn.params():          # the triangle version is static
+            env[p_] = Fr(1) if p_ == "p" else ANY
+        ev.run(fn.node.body, env)
+        n += len(ev.checked)
+        q = f"{clsn}._adaptive_sort_mesh"
+        for ex in ev.failed:
+            rep.fail(R2, fn.path, q,
+                     f"{q}:homogeneous:{src(ex.node)[:50]}",
+                     f"{ex.what}: the outcome depends on the unit of "
+                     f"length - with coordinates of size 1e6 the added "
+                     f"term is below round-off, exact ties between edge "
+                     f"lengths survive and the refined mesh is not "
+                     f"conforming", ex.node.lineno)
+        if not ev.failed:
+            rep.ok(R2, f"{q}:homogeneous",
+                   f"{len(ev.checked)} sums / comparisons of like "
+                   f"quantities")
+    if n < 20:
+        raise AnalysisError(f"only {n} dimension checks in the adaptive "
+                            f"sort routines")
+
+
 def _entry_points(model, rep):
     """The marked set is an array of cell *indices* (Mesh.refined: 'array of
     element indices'), so cell 0 is a member like any other.  (a) No
@@ -1247,6 +1290,7 @@ def run(model: Model, rep, tier: str) -> None:
              "no truth-value reduction over it, unrefined return only for "
              "a provably empty set")
     staged(lambda: _entry_points(model, rep),
+           lambda: _homogeneous_geometry(model, rep),
            lambda: _subdomain_propagation(model, rep),
            lambda: _templates(model, rep), lambda: _line(model, rep),
            lambda: _sentinel_tables(model, rep),
@@ -1268,6 +1312,11 @@ _LI = "skfem/mesh/mesh_line_1.py"
 _TE = "skfem/mesh/mesh_tet_1.py"
 _SETD = "np.setdiff1d(np.unique(new_t[:, ixs]), [-1])"
 MUTANTS = [
+    ("tetrahedral tie-breaking noise of absolute size",
+     (_TE, "        p = p.copy() + 1e-10 * np.abs(p).max() * "
+      "rng.random_sample(p.shape)",
+      "        p = p.copy() + 1e-10 * rng.random_sample(p.shape)"),
+     "C13-R2"),
     ("periodic meshes inherit adaptive refinement again",
      ("skfem/mesh/mesh_dg.py", "    def _adaptive(self, *args, **kwargs):\n        raise NotImplementedError\n\n", ""), "C13-R4"),
     ("line refinement uses the marked array as given",
